@@ -19,8 +19,9 @@ TABLE = {}
 # generator helper: the ONLY source of randomness of a case (seeded by the case seed)
 # ----------------------------------------------------------------------------------------------------------------
 class G:
-    def __init__(self, tn, seed, size):
-        self.tn, self.seed, self.size = tn, seed, size
+    def __init__(self, tn, seed, size, uniform=False):
+        # uniform: equal mode sizes and one constant TT-rank, so that cores have equal shapes (R9 shared-objects)
+        self.tn, self.seed, self.size, self.uniform = tn, seed, size, uniform
         self.r = C.Rng(seed)
         self.rs = np.random.RandomState(self.r.randrange(2 ** 32))
         if size == 0:
@@ -32,6 +33,10 @@ class G:
         else:
             self.d, self.nlo, self.nhi, self.rmax = self.r.randint(2, 5), 2, 6, 4
         self.n = [self.r.randint(self.nlo, self.nhi) for _ in range(self.d)]
+        if uniform:
+            self.d = max(self.d, 3)
+            self.n = [self.n[0]] * self.d
+            self.ur = self.r.randint(1, 2)
 
     # -- scalars
     def flag(self):
@@ -54,6 +59,8 @@ class G:
     # -- shapes / ranks
     def shape(self, d=None, lo=None, hi=None):
         d = self.d if d is None else d
+        if self.uniform:
+            return [self.r.randint(self.nlo if lo is None else lo, self.nhi if hi is None else hi)] * d
         return [self.r.randint(self.nlo if lo is None else lo, self.nhi if hi is None else hi) for _ in range(d)]
 
     def ranks(self, n, rmax=None, exact=None):
@@ -68,6 +75,8 @@ class G:
 
     def tt(self, n=None, r=None, pos=False, rmax=None):
         n = self.n if n is None else n
+        if self.uniform and r is None:
+            r = min(self.ur, min(n))
         rk = self.ranks(n, rmax) if r is None else ([1] + [r] * (len(n) - 1) + [1] if isinstance(r, int) else r)
         Y = []
         for k in range(len(n)):
@@ -485,7 +494,7 @@ E('sample', 'sample.py', ['C14', 'C10'],
   # unsert is added to the unnormalised probabilities of the first mode: an absolute parameter, scaled alike
   dict(Y='tt', m='int:f', seed='seed:gen', unsert='float'), homog=H({'Y': 1, 'unsert': 1}, 'I'))
 E('sample_square', 'sample.py', ['C14', 'C10'],
-  lambda g: (lambda n: dict(Y=g.tt(n), m=g.pick(g.int(1, 4), int(np.prod(n)) // 2), unique=g.flag(), seed=g.int(0, 99)))(g.shape(g.int(2, 3), 2, 3)),
+  lambda g: (lambda n: dict(Y=g.tt(n), m=g.pick(g.int(1, 4), 2 if g.uniform else int(np.prod(n)) // 2), unique=g.flag(), seed=g.int(0, 99)))(g.shape(g.int(2, 3), 2, 3)),
   # an int seed is handed on to the restart call / the inner sample_lhs calls (re-seeding), a Generator is consumed: the two
   # forms legitimately differ (no `gen` option)
   dict(Y='tt', m='int:f', unique='flag', seed='seed', m_fact='int', max_rep='int'), homog=H({'Y': 1}, 'I'))
